@@ -104,7 +104,10 @@ package litonlylzma
 
 // ---- encoder: memory safety, range-coder state invariants, termination ----
 
-//@ spec encOK(r *rangeEncoder) bool = r != nil && r.width >= 16777216 && r.low < 4294967296
+// encOK: low is conceptually 32 bits plus a pending carry: low + width stays below 2^33
+// between renormalisations (encodeBit never increases low + width; shiftLow brings
+// low back below 2^32 after width has been scaled by 256).
+//@ spec encOK(r *rangeEncoder) bool = r != nil && r.width >= 16777216 && math(r.low) + math(r.width) < 8589934592
 //@ spec dstOK(r *rangeEncoder, b []byte) bool = base(r.dst) == base(b) || fresh(base(r.dst))
 
 //@ func (*rangeEncoder).shiftLow
@@ -151,7 +154,7 @@ package litonlylzma
 //@   loop 2 invariant -1 <= rangeindex_2 && rangeindex_2 <= len(src) && encOK(rEnc) && forall(k, 0, 4, probOK(posProbs[k])) && forall(a, 0, 8, forall(k, 0, 256, probOK(litProbs[a][k])))
 //@   loop 2 invariant len(rEnc.dst) >= len(dst) && (base(rEnc.dst) == base(dst) || fresh(base(rEnc.dst)))
 //@   loop 2 decreases len(src) - rangeindex_2
-//@   loop 3 invariant 0 <= i && i <= 5 && rEnc.low < 4294967296 && len(rEnc.dst) >= len(dst) && (base(rEnc.dst) == base(dst) || fresh(base(rEnc.dst)))
+//@   loop 3 invariant 0 <= i && i <= 5 && rEnc.low < 8589934592 && len(rEnc.dst) >= len(dst) && (base(rEnc.dst) == base(dst) || fresh(base(rEnc.dst)))
 //@   loop 3 decreases 5 - i
 
 //@ func encodeLZMA
